@@ -500,7 +500,25 @@ func (x *Exec) callDynamic(bc *blockCtx, in ssa.Instruction, fv *Val, cc *ssa.Ca
 	bc.st.heaps["G_calls"] = x.sto(h, ft, x.b.Add(x.sel(h, ft, "Int"), x.b.Int(1)))
 	pure := x.isPureFuncValue(bc.fr, cc.Value)
 	if pure {
-		return x.applyFuncValue(ft, sig, args)
+		res := x.applyFuncValue(ft, sig, args)
+		// behaviour assumed of the callback (every closure passed for it is
+		// verified against the same clause through its own contract)
+		if prm, ok := cc.Value.(*ssa.Parameter); ok && bc.fr.fc != nil {
+			for _, cl := range bc.fr.fc.AssumeCB[prm.Name()] {
+				vars := map[string]*Val{}
+				for k, v := range bc.fr.params {
+					vars[k] = v
+				}
+				for k, a := range args {
+					vars[fmt.Sprintf("arg%d", k)] = a
+				}
+				vars["result"] = res
+				ce := &CEnv{x: x, fr: bc.fr, st: bc.st, old: bc.fr.entry, vars: vars, lets: bc.fr.lets, guard: bc.reach, fc: bc.fr.fc, env: bc.env, hypo: true}
+				x.assume(bc.reach, x.evalBool(ce, cl))
+				x.note("assumed of the callback " + prm.Name() + " of " + fnKey(bc.fr.fn) + ": " + cl.Text)
+			}
+		}
+		return res
 	}
 	// impure callback: results havoc; heap effects: by default callbacks are
 	// assumed not to write memory the function under contract reads (stated).
